@@ -69,7 +69,8 @@ class Tagged(np.ndarray):
 
 
 def tagged(vals, tag):
-    a = np.asarray(vals, dtype=float).view(Tagged)
+    a = np.asarray(vals)
+    a = a.astype(complex if np.iscomplexobj(a) else float).view(Tagged)
     a.tag = tag
     return a
 
@@ -386,6 +387,9 @@ def gen_ut(rng):
             ops.append(["assign", v, ["**", ["var", rng.choice(nums)], ["num", 2]]])
             nums.append(v)
     ops.append(["assign", "<state>y", ["+", ["var", "<state>y"], ["*", ["var", "<dt>"], ["var", "kfirst"]]]])
+    if rng.random() < 0.4:
+        # the user's state vector holds complex numbers in this run (a user type says nothing about that)
+        ops.insert(0, ["complex-state"])
     return ops
 
 
@@ -395,6 +399,10 @@ def check_ut(ops, rec):
     from vf.sexpr import to_pym
     import pymbolic.primitives as p
     wit = {"ut_ops": ops}
+    cstate = bool(ops) and ops[0] == ["complex-state"]
+    if cstate:
+        ops = ops[1:]
+        rec.count("usertype_programs_with_complex_state")
     with CodeBuilder("main") as cb:
         for op in ops:
             if op[0] == "assign":
@@ -407,7 +415,8 @@ def check_ut(ops, rec):
     def rhs(t, y):
         return tagged(-2.0 * np.asarray(y) + t, "vt")
     script = {"t0": 0.5, "dt0": 0.25, "state": {}, "initial": "main"}
-    start = [("main", {"<t>": 0.5, "<dt>": 0.25, "<state>y": tagged([1.0, -2.0, 0.5], "vt")})]
+    y0 = [1.0 + 0.5j, -2.0, 0.5j] if cstate else [1.0, -2.0, 0.5]
+    start = [("main", {"<t>": 0.5, "<dt>": 0.25, "<state>y": tagged(y0, "vt")})]
     rec.count("usertype_programs")
     try:
         with case_alarm(30):
@@ -431,6 +440,7 @@ def arg_grid():
         ("complex-array-3", np.array([1j, 2.0, -1 + 1j]), Array(False)),
         ("nan-array", np.array([1.0, float("nan")]), Array(True)),
         ("user-vector", tagged([1.0, -2.0, 0.5], "vt"), UserType("vt")),
+        ("complex-user-vector", tagged([1j, 2.0, -1 + 1j], "vt"), UserType("vt")),
     ]
 
 
